@@ -254,6 +254,14 @@ def _r175(ck, prog, cfg, writers):
                     continue
                 n += 1
                 wpos, wneg = _vguards(prog, f, w["b"])
+                if not wpos and w["kind"] == "call" and w["t"] is not None:
+                    # a private helper: it writes only under the value variants that guard every one of its own write sites
+                    h = prog.local_callee(f, w["t"])
+                    if h is not None and h is not f and not h.short.startswith("execute"):
+                        hw = effects.write_sites(prog, h, writers)
+                        sets = [_vguards(prog, h, x["b"])[0] for x in hw]
+                        if sets and all(sets):
+                            wpos = set.intersection(*sets) if len({frozenset(x) for x in sets}) == 1 else set()
                 excluded = bool(wpos & eneg) or bool(wpos and epos and not (wpos & epos))
                 ck.check(excluded, "R17.5", "%s:error#%d->%s%s" % (f.short, k, w["what"].rsplit("::", 1)[-1], _tag(cfg)),
                          "after the error reply %s was chosen (line %s) the handler can still write (%s at line %s) and nothing ties that write "
